@@ -108,6 +108,9 @@ def drive_parse(tier, seed):
     return evs
 
 
+NONE = -999        # how a keyword value None is written in the events (the specification compares integers)
+
+
 def drive_ops(tier, seed):
     """Sequences of register / make over 3 ids, all sequences of length <= L (enumerated)."""
     from jumanji import registration as reg
@@ -124,6 +127,7 @@ def drive_ops(tier, seed):
         ops.append(("register", i, "R", {"x": 3}))
         ops.append(("make", i, None, {}))
         ops.append(("make", i, None, {"y": 5, "z": 6}))
+        ops.append(("make", i, None, {"y": None, "w": None}))      # an explicit None is a value like any other: it overrides
     # non-canonical spellings of a version (leading zeros): the registry is keyed by (name, int(version))
     ops.append(("register", "Probe-v007", "P", {"x": 7}))
     ops.append(("register", "Probe-v7", "Q", {}))
@@ -166,7 +170,7 @@ def drive_ops(tier, seed):
                         e = reg.make(i, **kw)
                         oc = "ok"
                         cls = type(e).__module__.split(".")[-1] + ":" + type(e).__name__
-                        seen = sorted(e.kwargs.items())
+                        seen = sorted((k, NONE if v is None else v) for k, v in e.kwargs.items())
                         msg_ids = []
                     except ValueError as ex:
                         oc, cls, seen = "raise:ValueError", "none", []
@@ -177,7 +181,8 @@ def drive_ops(tier, seed):
                     post_entries = {k: (v.entry_point, kwd(v.kwargs)) for k, v in reg._REGISTRY.items()}
                     ci = _canon(i, reg)
                     regd = pre.get(ci) if ci is not None else None
-                    evs.append({"k": "make", "sid": sid, "id": i, "id_chars": chars(i), "call_kwargs": sorted(kw.items()),
+                    evs.append({"k": "make", "sid": sid, "id": i, "id_chars": chars(i),
+                                "call_kwargs": sorted((k, NONE if v is None else v) for k, v in kw.items()),
                                 "outcome": oc, "class": cls,
                                 "seen_kwargs": [[k, v] for k, v in seen], "pre_ids": [chars(x) for x in sorted(pre)],
                                 "registered": regd is not None,
